@@ -16,6 +16,10 @@ OBLIGATIONS = [
     (P + "chunk_size_roundtrip", "std::hex chunk sizes parse back (1*HEXDIG)"),
     (P + "fcgi_roundtrip", "FastCGI record grammar (Spec) o format_output calls: STDOUT stream = concatenation of the inputs"),
     (P + "fcgi_records_wellformed", "every STDOUT record 1..65535 bytes; exactly one empty STDOUT then one END_REQUEST, last"),
+    (P + "device_conservation", "either device, any buffer size, every sequence of sputn/sputc/sync/flush/setbuf/full_buffering: written ++ buffered = input; after close nothing buffered, eof exactly once (also after the extra flush_async_chunk)"),
+    (P + "eof_flag_toggles_counterexample", "documented quirk outside the contexts' usage: close; flush; flush announces eof twice"),
+    (P + "cache_copy_identical", "copy_buf: bytes passed to the next buffer = copied_data() = bytes written, for every op sequence + close"),
+    (P + "gzip_bookkeeping", "gzip_buf, any deflater/buffer size: deflater inputs in order = app bytes, Z_FINISH exactly once and last, bytes passed on = deflater outputs; inflate hypothesis => body decompresses to app bytes"),
 ]
 
 CONFIGS_QUICK = [(-1, 16384, 1024), (300, 37, 5)]
